@@ -35,7 +35,27 @@ impl Processor {
     }
 
     pub fn load(&self, main: &Locator) -> anyhow::Result<ModuleSet> {
-        let mods = oal_compiler::module::load(&mut self.loader(), main)?;
+        let mods = oal_compiler::module::load(&mut self.loader(), main).map_err(|err| {
+            // Errors from the module loader itself (e.g. invalid import, cycle) are not reported yet.
+            match err.downcast::<oal_compiler::errors::Error>() {
+                Ok(err) => match err.span().cloned() {
+                    Some(span) => {
+                        // An empty span does not show in the report: name the module instead.
+                        let msg = if span.range().is_empty() {
+                            format!("{err} (in {})", span.locator())
+                        } else {
+                            err.to_string()
+                        };
+                        match self.report(span, msg) {
+                            Ok(()) => anyhow!("loading failed"),
+                            Err(_) => err.into(),
+                        }
+                    }
+                    None => err.into(),
+                },
+                Err(err) => err,
+            }
+        })?;
         Ok(mods)
     }
 
